@@ -24,6 +24,8 @@ VDRIVER = os.environ.get("VDRIVER", os.path.join(ROOT, "lean", ".lake", "build",
 WORK = os.path.join(ROOT, ".work", "fmt_crash")
 
 STRSIZE = 65536
+# symlinks to files are not collected by the directory walk; they are passed to luafmt explicitly
+EXTRA_ARGS = []
 FILE_SYSCALLS = ["open", "openat", "creat", "write", "pwrite64", "writev", "fsync", "fdatasync", "close",
                  "rename", "renameat", "renameat2", "unlink", "unlinkat", "fchmod", "chmod", "fchmodat",
                  "ftruncate", "truncate"]
@@ -50,10 +52,24 @@ def build_luafmt(log=None):
 
 FIXTURE_SMALL = {
     "a.lua": "local a=1\nlocal   b  =  2\n",
-    "b.lua": "local function f( x,y )\n  return {x,y,\n x+y}\nend\nprint( f(1,2) )\n",
+    "b.lua": "local function f( x,y )\n  return {x,y,\n x+y}\nend\nprint( f(1,2) )\n",     # has a second hard link
     "c.lua": "x = {1,2,\n3}\n",
     "d.lua": "local d = 4\n",          # already formatted: never written
+    "e.lua": "",                        # empty
+    "crlf.lua": "local  c=1\r\nlocal d =2\r\n",
+    "ro.lua": "local r=  1\n",          # read-only file
+    "rodir/in.lua": "local  q = 0\n",   # file in a read-only directory
+    "data/real.txt": "local  s = 1\n",  # only reachable through the symlink link.lua
+    "linked/x.lua": "local  x = 1\n",   # directory also reachable through the symlink dirlink
 }
+# file-system variety of the work directory: [op, path, argument]
+EXTRAS_SMALL = [
+    ["hardlink", "b.lua", "b.lua.orig"],
+    ["symlink", "link.lua", "data/real.txt"],
+    ["dirsymlink", "dirlink", "linked"],
+    ["chmod", "ro.lua", 0o444],
+    ["chmod", "rodir", 0o555],
+]
 
 
 def gen_lua(rng, n_stmts):
@@ -89,14 +105,42 @@ def gen_fixture(rng, n_files, big=False):
     return fx
 
 
-def materialise(fx, d):
+def materialise(fx, d, extras=()):
     if os.path.exists(d):
+        for base, dirs, _ in os.walk(d):
+            for x in dirs:
+                if not os.path.islink(os.path.join(base, x)):
+                    os.chmod(os.path.join(base, x), 0o755)
         shutil.rmtree(d)
     for name, text in fx.items():
         p = os.path.join(d, name)
         os.makedirs(os.path.dirname(p), exist_ok=True)
         with open(p, "wb") as f:
             f.write(text.encode())
+    for op, path, arg in extras:
+        p = os.path.join(d, path)
+        if op == "hardlink":
+            os.link(p, os.path.join(d, arg))
+        elif op in ("symlink", "dirsymlink"):
+            os.symlink(os.path.relpath(os.path.join(d, arg), os.path.dirname(p)), p)
+        elif op == "chmod":
+            os.chmod(p, arg)
+
+
+def aliases_of(extras):
+    """other hard-link name -> fixture file it shares its inode with"""
+    return {arg: path for op, path, arg in extras if op == "hardlink"}
+
+
+def links_of(d):
+    """relative path -> link target for every symlink under d"""
+    out = {}
+    for base, dirs, files in os.walk(d):
+        for f in dirs + files:
+            p = os.path.join(base, f)
+            if os.path.islink(p):
+                out[os.path.relpath(p, d)] = os.readlink(p)
+    return out
 
 
 def listing(d):
@@ -105,7 +149,8 @@ def listing(d):
     for base, _, files in os.walk(d):
         for f in files:
             p = os.path.join(base, f)
-            out[os.path.relpath(p, d)] = open(p, "rb").read()
+            if not os.path.islink(p):
+                out[os.path.relpath(p, d)] = open(p, "rb").read()
     return out
 
 
@@ -138,7 +183,7 @@ def run_traced(workdir, trace_path, inject=None, fsize=None, ignore_xfsz=True, t
     cmd = ["strace", "-f", "-xx", "-s", str(strsize), "-o", f"/dev/fd/{w}", "-e", "trace=" + TRACE_SET]
     if inject:
         cmd += ["-e", "inject=" + inject]
-    cmd += [luafmt or LUAFMT, "--write", workdir]
+    cmd += [luafmt or LUAFMT, "--write", workdir] + [os.path.join(workdir, x) for x in EXTRA_ARGS]
 
     def pre():
         if fsize is not None:
@@ -351,24 +396,35 @@ def classify(fault):
     return None
 
 
-def check_run(rep, fx, new, fixture_name, fault, workdir, trace_path, rc, seen, pending):
+def check_run(rep, fx, new, fixture_name, fault, workdir, trace_path, rc, seen, pending, extras=(), links0=None,
+              collected=None):
     """oracle + queue the correspondence request for one finished (faulted) run"""
     after = listing(workdir)
     tr = parse_trace(trace_path, workdir)
     rep.r["evaluations"] += 1
-    # --- oracle: every original file holds complete old or complete new content
+    aliases = aliases_of(extras)
+    # --- oracle: every original path (including the other names of hard-linked files) holds complete old or
+    #     complete new content
     bad = []
     n_new = n_old = 0
-    for name, old in fx.items():
+    for name in list(fx) + list(aliases):
+        src = aliases.get(name, name)
+        old = fx[src]
         cur = after.get(name)
-        if cur == new[name]:
-            n_new += 1
+        if cur == new[src]:
+            if name in fx:
+                n_new += 1
         elif cur == old.encode():
-            n_old += 1
+            if name in fx:
+                n_old += 1
         else:
             bad.append({"file": name, "len_on_disk": None if cur is None else len(cur), "len_old": len(old),
-                        "len_new": len(new[name]),
-                        "on_disk_is_prefix_of_new": cur is not None and new[name].startswith(cur)})
+                        "len_new": len(new[src]),
+                        "on_disk_is_prefix_of_new": cur is not None and new[src].startswith(cur)})
+    # symlinks of the work directory stay symlinks to the same targets
+    if links0 is not None and links_of(workdir) != links0:
+        bad.append({"file": "symlinks", "len_on_disk": None, "len_old": 0, "len_new": 0, "on_disk_is_prefix_of_new": False,
+                    "links_before": links0, "links_after": links_of(workdir)})
     changed_files = sum(1 for n in fx if new[n] != fx[n].encode())
     fired = tr["killed"] is not None or any(e["injected"] or (e["err"] is not None) for e in tr["events"])
     rep.count("fault_fired" if fired else "fault_not_reached")
@@ -377,7 +433,14 @@ def check_run(rep, fx, new, fixture_name, fault, workdir, trace_path, rc, seen, 
     for e in tr["events"]:
         if e["err"]:
             rep.count("errno_" + e["err"])
-    leftovers = [n for n in after if n not in fx]
+    leftovers = [n for n in after if n not in fx and n not in aliases]
+    # exit status: a run that was not killed and left a file that needs formatting unformatted must not exit 0
+    unwritten = [n for n in (collected or []) if after.get(n) != new[n]]
+    if tr["killed"] is None and unwritten and rc == 0:
+        rep.r["oracle_failures"].append({
+            "input": {"fixture": fixture_name, "files": fx, "extras": list(extras), "fault": fault},
+            "what": f"after {fault} luafmt exited 0 although {unwritten[0]} (and {len(unwritten) - 1} more) was not rewritten",
+            "class": classify(fault)})
     if leftovers:
         rep.count("runs_leaving_a_temp_file")
     touched = len(tr["events"]) > 0
@@ -389,18 +452,20 @@ def check_run(rep, fx, new, fixture_name, fault, workdir, trace_path, rc, seen, 
         rep.count("stopped_midway(some files new, some old)")
     if bad:
         rep.r["oracle_failures"].append({
-            "input": {"fixture": fixture_name, "files": fx, "fault": fault},
+            "input": {"fixture": fixture_name, "files": fx, "extras": list(extras), "fault": fault},
             "what": f"after {fault} the file {bad[0]['file']} holds neither its original nor its formatted content "
                     f"({bad[0]['len_on_disk']} bytes on disk, old {bad[0]['len_old']}, new {bad[0]['len_new']})",
             "class": classify(fault), "files": bad})
     # --- correspondence: model on the syscalls that took effect == directory on disk
-    ids = Ids(fx.keys())
-    s0 = enc_state({n: t.encode() for n, t in fx.items()}, ids)
+    ids = Ids(list(fx.keys()) + list(aliases))
+    s0_files = {n: t.encode() for n, t in fx.items()}
+    s0_files.update({a: fx[src].encode() for a, src in aliases.items()})
+    s0 = enc_state(s0_files, ids)
     cands = [effects(tr["events"], False)]
     if any(e["ret"] is None for e in tr["events"]):
         cands.append(effects(tr["events"], True))
     reqs = [f"fs.exec {s0} {enc_trace(c, ids)}" for c in cands]
-    pending.append({"reqs": reqs, "disk": after, "ids": ids, "fault": fault, "fixture": fixture_name, "files": fx,
+    pending.append({"reqs": reqs, "disk": after, "ids": ids, "fault": fault, "fixture": fixture_name, "files": fx, "extras": list(extras),
                     "trace_len": len(tr["events"])})
     if len(rep.r["samples"]) < 4 and fired and touched:
         rep.r["samples"].append({"fixture": fixture_name, "fault": fault, "exit": rc, "killed_by": tr["killed"],
@@ -425,7 +490,7 @@ def flush_correspondence(rep, pending):
             rep.r["traces_validated_against_impl"] += 1
         else:
             if len(rep.r["mismatches"]) < 20:
-                rep.r["mismatches"].append({"input": {"fixture": p["fixture"], "files": p["files"], "fault": p["fault"]},
+                rep.r["mismatches"].append({"input": {"fixture": p["fixture"], "files": p["files"], "extras": p["extras"], "fault": p["fault"]},
                                             "model": got, "impl": want, "names": p["ids"].names(),
                                             "tie": "correspondence fs.exec (Fs model on the observed syscalls vs directory on disk)"})
             rep.count("mismatches_total")
@@ -463,7 +528,7 @@ def all_syscall_names(trace_path):
     return names
 
 
-def run_fixture(rep, fixture_name, fx, tier, rng, seen, replay_fault=None, light=False):
+def run_fixture(rep, fixture_name, fx, tier, rng, seen, replay_fault=None, light=False, extras=()):
     os.makedirs(WORK, exist_ok=True)
     new = expected_new(fx)
     # strace must print whole write buffers (it truncates strings at -s); keep it small, strace pre-allocates 4x that
@@ -473,15 +538,25 @@ def run_fixture(rep, fixture_name, fx, tier, rng, seen, replay_fault=None, light
     trp = os.path.join(WORK, "trace.txt")
     pending = []
     # baseline
-    materialise(fx, wd)
+    global EXTRA_ARGS
+    EXTRA_ARGS = [path for op, path, arg in extras if op == "symlink"]
+    materialise(fx, wd, extras)
+    links0 = links_of(wd)
     rc, err = run_traced(wd, trp, strsize=STRSIZE)
     base = parse_trace(trp, wd)
     base["all_names"] = all_syscall_names(trp)
-    check_run(rep, fx, new, fixture_name, {"kind": "none"}, wd, trp, rc, seen, pending)
+    check_run(rep, fx, new, fixture_name, {"kind": "none"}, wd, trp, rc, seen, pending, extras, links0)
     after = listing(wd)
     for name in fx:
         if after.get(name) != new[name]:
-            rep.r["notes"].append(f"baseline: {name} is not the formatted content after an unfaulted --write (rc={rc}, {err[-200:]})")
+            rep.count("baseline_files_luafmt_did_not_format(not collected)")
+            rep.r["notes"].append(f"baseline: {fixture_name}/{name} is not formatted by an unfaulted --write (rc={rc}) — not collected by luafmt")
+    for op, path, arg in extras:
+        rep.count("fixture_" + op)
+    # the files luafmt rewrites in an unfaulted run (a file only reachable through a symlink may not be collected)
+    collected = [n for n in fx if new[n] != fx[n].encode() and after.get(n) == new[n]]
+    rep.count("fixture_files_ge_8KiB", sum(1 for n in collected if len(new[n]) >= 8192))
+    rep.count("fixture_files_lt_8KiB", sum(1 for n in collected if len(new[n]) < 8192))
     faults = [replay_fault] if replay_fault else fault_plan(base, tier, rng, kills_only=light)
     if not replay_fault:
         sizes = sorted({len(v) for v in new.values()})
@@ -493,12 +568,12 @@ def run_fixture(rep, fixture_name, fx, tier, rng, seen, replay_fault=None, light
                                 + [rng.randrange(0, top) for _ in range(3 if tier == "quick" else 25)]
                                 + ([4096, 4097, 8192] if tier == "thorough" else [])))
             if light:
-                limits = sorted(set([sizes[0] // 2] + [rng.randrange(0, top) for _ in range(3)]))
+                limits = sorted(set([sizes[0] // 2, 8192, (8192 + sizes[-1]) // 2, sizes[-1] - 1] + [rng.randrange(0, top) for _ in range(3)]))
         for l in limits:
             faults.append({"kind": "fsize", "limit": l, "sigxfsz": "ignored"})
             faults.append({"kind": "fsize", "limit": l, "sigxfsz": "default"})
     for fault in faults:
-        materialise(fx, wd)
+        materialise(fx, wd, extras)
         if fault["kind"] == "none":
             rc, _ = run_traced(wd, trp, strsize=STRSIZE)
         elif fault["kind"] == "kill":
@@ -508,7 +583,7 @@ def run_fixture(rep, fixture_name, fx, tier, rng, seen, replay_fault=None, light
         else:
             rc, _ = run_traced(wd, trp, fsize=fault["limit"], ignore_xfsz=(fault["sigxfsz"] == "ignored"), strsize=STRSIZE)
         rep.count("fault_" + fault["kind"])
-        check_run(rep, fx, new, fixture_name, fault, wd, trp, rc, seen, pending)
+        check_run(rep, fx, new, fixture_name, fault, wd, trp, rc, seen, pending, extras, links0, collected)
         if len(pending) >= 200:
             flush_correspondence(rep, pending)
     flush_correspondence(rep, pending)
@@ -548,14 +623,17 @@ def main():
     if replay:
         v = json.load(open(replay))
         inp = v["input"]
-        run_fixture(rep, inp.get("fixture", "replay"), inp["files"], tier, rng, seen, replay_fault=inp["fault"])
+        run_fixture(rep, inp.get("fixture", "replay"), inp["files"], tier, rng, seen, replay_fault=inp["fault"],
+                    extras=[tuple(x) for x in inp.get("extras", [])])
     else:
-        run_fixture(rep, "small", FIXTURE_SMALL, tier, rng, seen)
+        run_fixture(rep, "small", FIXTURE_SMALL, tier, rng, seen, extras=EXTRAS_SMALL)
         if tier == "thorough":
-            run_fixture(rep, "gen20", gen_fixture(rng, 20, big=True), tier, rng, seen)
-            run_fixture(rep, "gen6", gen_fixture(rng, 6), tier, rng, seen)
+            run_fixture(rep, "gen20", gen_fixture(rng, 20, big=True), tier, rng, seen,
+                        extras=[["hardlink", "big.lua", "big.lua.orig"], ["hardlink", "f01.lua", "f01.lua.orig"]])
+            run_fixture(rep, "gen6", gen_fixture(rng, 6), tier, rng, seen, extras=[["hardlink", "f02.lua", "snapshot.f02"]])
         else:
-            run_fixture(rep, "gen3", gen_fixture(rng, 3), tier, rng, seen, light=True)
+            run_fixture(rep, "gen3", gen_fixture(rng, 3, big=True), tier, rng, seen, light=True,
+                        extras=[["hardlink", "big.lua", "big.lua.orig"], ["hardlink", "f01.lua", "f01.lua.orig"]])
     rep.r["rule"] = ("one case = one run of the real `luafmt --write <dir>` on a fresh copy of a fixture directory (hand-written "
                      "4-file fixture + seeded generated directories with sub-directories and an already-formatted file) with one "
                      "injected fault: SIGKILL on entry of every file syscall of the run (k-th invocation of each syscall name), an errno injected into the "
